@@ -130,9 +130,9 @@ func hasGlobalVarAssignInInitFunc(pass *analysishelper.EnhancedPass, spec *ast.V
 // Returns a producer in the cases: 1) func call 2) literal nil 3) another global var 4) struct field/method.
 // In all other cases, it returns nil.
 func getGlobalProducer(pass *analysishelper.EnhancedPass, valspec *ast.ValueSpec, lid int, rid int) *annotation.ProduceTrigger {
-	switch rhs := valspec.Values[rid].(type) {
+	switch rhs := unwrapInitializer(pass, valspec.Values[rid]).(type) {
 	case *ast.CallExpr:
-		if ident, ok := rhs.Fun.(*ast.Ident); ok {
+		if ident, ok := ast.Unparen(rhs.Fun).(*ast.Ident); ok {
 			// We assume builtin functions do not return nil.
 			if _, ok := pass.TypesInfo.ObjectOf(ident).(*types.Builtin); ok {
 				return nil
@@ -140,7 +140,7 @@ func getGlobalProducer(pass *analysishelper.EnhancedPass, valspec *ast.ValueSpec
 			return getProducerForFuncCall(pass, ident, lid, rid, rhs)
 		}
 		// Method call
-		if methCall, ok := rhs.Fun.(*ast.SelectorExpr); ok {
+		if methCall, ok := ast.Unparen(rhs.Fun).(*ast.SelectorExpr); ok {
 			methName := methCall.Sel
 			return getProducerForMethodCall(pass, methName, lid, rid, rhs)
 		}
@@ -160,6 +160,25 @@ func getGlobalProducer(pass *analysishelper.EnhancedPass, valspec *ast.ValueSpec
 	}
 
 	return nil
+}
+
+// unwrapInitializer strips the parentheses and the conversions between nilable types around the
+// initializer of a global variable, e.g., `(nil)` and `(*int)(nil)`. Neither of them changes the
+// nilability of the value, so the producer is determined by the underlying expression.
+func unwrapInitializer(pass *analysishelper.EnhancedPass, expr ast.Expr) ast.Expr {
+	for {
+		expr = ast.Unparen(expr)
+		call, ok := expr.(*ast.CallExpr)
+		if !ok || len(call.Args) != 1 || !pass.TypesInfo.Types[call.Fun].IsType() {
+			return expr
+		}
+		from, to := pass.TypesInfo.TypeOf(call.Args[0]), pass.TypesInfo.TypeOf(call)
+		if from == nil || to == nil || typeshelper.TypeBarsNilness(from) || typeshelper.TypeBarsNilness(to) {
+			// The conversion creates a new value (e.g., `[]byte("abc")`) that is never nil.
+			return expr
+		}
+		expr = call.Args[0]
+	}
 }
 
 func getProducerForVar(pass *analysishelper.EnhancedPass, rhs *ast.Ident) *annotation.ProduceTrigger {
